@@ -62,7 +62,9 @@ def bitsH (acc : BitsMsg) (fno : Nat) (v : WVal) : Except Err (Option BitsMsg) :
 def decodeBitsInto (acc : BitsMsg) (bs : Bytes) : Except Err BitsMsg :=
   decodeMsg bitsH dropUnknown acc bs
 
-def decodeBits (bs : Bytes) : Except Err BitsMsg := decodeBitsInto {} bs
+def bitsI32OK (b : BitsMsg) : Bool := i32ok b.n && b.rankIndex.all i32ok
+
+def decodeBits (bs : Bytes) : Except Err BitsMsg := checkI32 bitsI32OK (decodeBitsInto {} bs)
 
 def encodeBits (b : BitsMsg) : Bytes :=
   encVarintF 1 b.flags ++ (encVarintF 10 b.n ++ (encPackedF 20 b.words ++ encPackedF 30 b.rankIndex))
@@ -103,7 +105,11 @@ def array32U (acc : Array32Msg) (raw : Bytes) : Array32Msg :=
 def decodeArray32Into (acc : Array32Msg) (bs : Bytes) : Except Err Array32Msg :=
   decodeMsg array32H array32U acc bs
 
-def decodeArray32 (bs : Bytes) : Except Err Array32Msg := decodeArray32Into {} bs
+def array32I32OK (a : Array32Msg) : Bool :=
+  i32ok a.cnt && a.offsets.all i32ok && i32ok a.eltWidth && optOK bitsI32OK a.bmElts
+
+def decodeArray32 (bs : Bytes) : Except Err Array32Msg :=
+  checkI32 array32I32OK (decodeArray32Into {} bs)
 
 def encodeArray32Known (a : Array32Msg) : Bytes :=
   encVarintF 1 a.cnt ++ (encPackedF 2 a.bitmaps ++ (encPackedF 3 a.offsets ++ (encBytesF 4 a.elts ++
